@@ -163,7 +163,7 @@ pub fn record_temp(seed: u64, thorough: bool, path: &str) -> Value {
     let mut base = 0usize;
     for e in log.iter() {
         if e.op == "jump" { base = if (e.new as u64) > TLC_MAX / 2 { e.new - 1000 } else { 0 }; out.push(json!({"e": "atomic", "thread": e.thread, "op": "jump", "old": 0, "new": small(e.new - base)})); continue; }
-        out.push(json!({"e": "atomic", "thread": e.thread, "op": e.op, "old": small(e.old - base), "new": small(e.new.wrapping_sub(base))}));
+        out.push(json!({"e": "atomic", "thread": e.thread, "op": e.op, "old": small(e.old.wrapping_sub(base)), "new": small(e.new.wrapping_sub(base))}));
     }
     let pid = std::process::id().to_string();
     let mut all = std::collections::HashSet::new();
